@@ -183,4 +183,74 @@ Proof.
   - rewrite <- Hr2. exact Hinv'.
   - exists iF. split; [exact Hrun|reflexivity].
 Qed.
+
+(* ---------- whole histories ---------- *)
+Fixpoint seq_extract (st : cstate) (fs : list cfile) : list (N * list N) :=
+  match fs with [] => [] | f :: r => let '(e, o, st') := extract file par cab st f in (e, o) :: seq_extract st' r end.
+Definition run_to (f : cfile) := ideal EofPad2 0 (Mszip.zcall (fi_off f + fi_len f) Mszip.zinit) i0.
+Definition good (f : cfile) : Prop :=
+  fi_folder f = fidx /\ prechecks par fo f = true /\ fi_len f <> 0 /\ exists zf, fst (run_to f) = SVal (MSPACK_ERR_OK, false, zf).
+Definition want (f : cfile) : N * list N := (MSPACK_ERR_OK, skipn (N.to_nat (fi_off f)) (rev (iout (snd (run_to f))))).
+(* each member starts at or after the end of the one before *)
+Fixpoint ordered (from : N) (fs : list cfile) : Prop :=
+  match fs with [] => True | f :: r => from <= fi_off f /\ ordered (fi_off f + fi_len f) r end.
+
+Lemma seq_from : forall fs st z i, minv st z i -> reach (h_off (cs_host st)) z i -> ordered (h_off (cs_host st)) fs -> Forall good fs ->
+  seq_extract st fs = map want fs.
+Proof.
+  induction fs as [|f r IH]; intros st z i Hinv Hreach Hord Hgood; [reflexivity|].
+  cbn [seq_extract map]. destruct Hord as [Hle Hord]. inversion Hgood as [|? ? (Hff & Hpre & Hlen & zf & Hrun) Hgr]; subst.
+  unfold run_to in Hrun. destruct (ideal EofPad2 0 (Mszip.zcall (fi_off f + fi_len f) Mszip.zinit) i0) as [rr iF] eqn:E. cbn [fst] in Hrun. subst rr.
+  destruct (hist_step st z i f zf iF Hinv Hreach Hff Hpre Hlen Hle E) as (st' & Ex & Hinv' & Hreach' & Hoff').
+  rewrite Ex. f_equal.
+  - unfold want, run_to. rewrite E. reflexivity.
+  - apply (IH st' zf _ Hinv'); [rewrite Hoff'; exact Hreach'|rewrite Hoff'; exact Hord|exact Hgr].
+Qed.
+
+(* the state cabd_extract builds when it (re)initialises the decoder for this folder *)
+Definition st0 : cstate := mkCS (Some fidx) (Some (DZip Mszip.zinit)) {| bbuf := []; bend := false |} (mkH (fo_offset fo) true [] 0 0 0 0 false [] 0).
+Lemma minv_st0 : bs <> [] -> minv st0 Mszip.zinit i0 /\ reach (h_off (cs_host st0)) Mszip.zinit i0.
+Proof.
+  intro Hne. split.
+  - unfold minv, st0. cbn [cs_folder cs_dec cs_host cs_bst h_off]. split; [reflexivity|]. split; [reflexivity|]. split; [reflexivity|]. split; [apply zinit_ok|].
+    exists {| rem := pays comp bs; out := [] |}. cbn [out]. split; [|split; [reflexivity|]].
+    + unfold Q. cbn. repeat split. exists pre, bs. split; [|reflexivity]. unfold at_blocks. cbn. repeat split; try assumption.
+      * intros ->. contradiction.
+      * intros _. lia.
+    + unfold R, i0. cbn. repeat split; auto. discriminate.
+  - exists i0. split; [|reflexivity]. cbn [st0 cs_host h_off]. vm_compute. reflexivity.
+Qed.
+
+Lemma extract_fresh_is_st0 f : fi_folder f = fidx -> prechecks par fo f = true -> extract file par cab cs_init f = extract file par cab st0 f.
+Proof.
+  intros Hff Hpre. destruct (prechecks_unfold f Hpre) as (P1 & P2 & P3 & P4).
+  unfold extract. rewrite P1, P2. cbn [andb]. rewrite Hff, Hfo, P3, P4.
+  assert (Hinit : init_decomp (fo_comp fo) = inr (DZip Mszip.zinit)) by (unfold init_decomp; unfold ctype in Hct; rewrite Hct; reflexivity).
+  cbn [cs_init st0 cs_folder cs_dec cs_host cs_bst h_off negb orb]. rewrite Hinit, (N.eqb_refl fidx). cbn [negb orb].
+  replace (fi_off f <? 0) with false by (symmetry; apply N.ltb_ge; lia). cbn [orb]. reflexivity.
+Qed.
+
+(* For every list of members of one MSZIP folder, each starting at or after the end of the one before: extracting them one after
+   the other with ONE decompressor (which keeps its decoder between the calls) gives each of them the status and the bytes a
+   fresh decompressor gives it. *)
+Theorem mszip_history_independent fs : bs <> [] -> ordered 0 fs -> Forall good fs ->
+  seq_extract cs_init fs = map (fun f => let '(e, o, _) := extract file par cab cs_init f in (e, o)) fs.
+Proof.
+  intros Hne Hord Hgood.
+  assert (Hfresh : forall f, good f -> (let '(e, o, _) := extract file par cab cs_init f in (e, o)) = want f).
+  { intros f (Hff & Hpre & Hlen & zf & Hrun). unfold run_to in Hrun.
+    destruct (ideal EofPad2 0 (Mszip.zcall (fi_off f + fi_len f) Mszip.zinit) i0) as [rr iF] eqn:E. cbn [fst] in Hrun. subst rr.
+    rewrite <- Hff in Hfo.
+    destruct (mszip_member_is_slice file par cab bufpos fo f pre bs post zf iF Hfo Hct Hpre Hfile Hoff Hnb Hwf Hlen E) as (st' & Ex & _).
+    rewrite Ex. unfold want, run_to. rewrite E. reflexivity. }
+  transitivity (map want fs).
+  - destruct fs as [|f r]; [reflexivity|].
+    (* the first call builds the decoder; from then on the invariant carries *)
+    cbn [seq_extract]. inversion Hgood as [|? ? Hg Hgr]; subst. destruct Hg as (Hff & Hpre & Hlen & zf & Hrun).
+    rewrite (extract_fresh_is_st0 f Hff Hpre).
+    destruct (minv_st0 Hne) as [Hi Hr].
+    change (let '(e, o, st') := extract file par cab st0 f in (e, o) :: seq_extract st' r) with (seq_extract st0 (f :: r)).
+    apply (seq_from (f :: r) st0 Mszip.zinit i0 Hi Hr); [exact Hord|exact Hgood].
+  - apply map_ext_in. intros f Hin. symmetry. apply Hfresh. rewrite Forall_forall in Hgood. apply Hgood. exact Hin.
+Qed.
 End Hist.
